@@ -11,11 +11,16 @@ open XsVerif.Props.C10
 #print axioms scratch_isolated
 #print axioms history_neutral_partial
 #print axioms history_neutral_prefix
-#print axioms history_dependent_of_not_selfSufficient
-#print axioms neutral_iff_selfSufficient
-#print axioms selfSufficient_collect
-#print axioms history_neutral_ungated
+#print axioms history_dependent_of_not_nsQuiet
+#print axioms neutral_iff_nsQuiet
+#print axioms wild_avail_neutral
+#print axioms rebuild_resets
+#print axioms gated_neutral_partial
+#print axioms gated_dependent_of_not_selfSufficient
+#print axioms gated_neutral_iff_selfSufficient
 #print axioms history_counterexample
-#print axioms history_dependent_counterexample
+#print axioms gated_dependent_counterexample
+#print axioms namespace_load_counterexample
+#print axioms lax_attr_noload_counterexample
 #print axioms record_disabled_breaks_inv
 #print axioms record_disabled_counterexample
